@@ -339,7 +339,7 @@ def check_parse(pattern, spec, groups, max_nodes=400000):
             if j in I.acc:
                 good = any(q2 in R.acc and not (F2 & R.acc) for q2, F2 in MT)
                 if not good:
-                    return _rebuild(parent, node), {"nodes": nodes}
+                    return _diversify(_rebuild(parent, node), mts), {"nodes": nodes}
             if j in I.chr:
                 cs, tgt = I.chr[j]
                 for mt in mts:
@@ -358,6 +358,25 @@ def check_parse(pattern, spec, groups, max_nodes=400000):
                         parent[nxt] = (node, c)
                         queue.append(nxt)
     return None, {"nodes": nodes}
+
+
+def _diversify(w, mts):
+    """replace every character by a position-dependent member of its own minterm class: the automata cannot tell
+    the words apart, but captured VALUES at different spans become different (better native replays)"""
+    out = []
+    for i, ch in enumerate(w):
+        c = ord(ch) if ord(ch) < 128 else NONASCII
+        cls = None
+        for m in mts:
+            if c in m:
+                cls = sorted(x for x in m if 33 <= x < 127) or sorted(m)
+                break
+        if not cls or len(cls) == 1:
+            out.append(ch)
+        else:
+            x = cls[(i + 1) % len(cls)]
+            out.append(chr(x) if x < 128 else "\u0100")
+    return "".join(out)
 
 
 def _rebuild(parent, node):
